@@ -41,9 +41,9 @@ def rank (K T v04 v0A : Nat) (x : World) : Nat :=
   | .stopping => 2 + pendAfter K v04 v0A x.u
   | _ => 0
 
-/-- Facts about the monitor and the start-up timer used together with `Coh` in the liveness proof. -/
+/-- Facts about the monitor used together with `Coh` in the liveness proof. -/
 def Live (K : Nat) (x : World) : Prop :=
-  x.u.phyReady = true ∧ x.e.waited ≤ K ∧ (x.e.prevDir = true → x.e.waited = 0) ∧
+  x.e.waited ≤ K ∧ (x.e.prevDir = true → x.e.waited = 0) ∧
   (x.u.tx = ⟨.idle, true⟩ → x.e.mustHold = true)
 
 /-- What one cycle does to the rank: a DIR-low cycle lowers it (if it is not already 0), a DIR-high
